@@ -549,12 +549,16 @@ theorem lost_reply_retry_acks (self lead retries : Nat) (orc : Nat → Tick) (lo
   exact ⟨hok, add_effect self retries orc log p hok⟩
 
 /-- the first forward commits and its answer is lost; the retry is answered: acknowledged, ONE entry -/
-example : consAddPeer 1 1 (planOrc 0 [.l]) [.boot [0, 1, 2]] 3 = (.ok, [.boot [0, 1, 2], .addVoter 3]) := by decide
+example : consAddPeer 1 1 (planOrc 1 0 [.l]) [.boot [0, 1, 2]] 3 = (.ok, [.boot [0, 1, 2], .addVoter 3]) := by decide
 /-- … with `commit_retries = 0` there is no retry: reported as failed, yet in the single log (visible on all, not split) -/
-example : consAddPeer 1 0 (planOrc 0 [.l]) [.boot [0, 1, 2]] 3 = (.err, [.boot [0, 1, 2], .addVoter 3]) := by decide
+example : consAddPeer 1 0 (planOrc 1 0 [.l]) [.boot [0, 1, 2]] 3 = (.err, [.boot [0, 1, 2], .addVoter 3]) := by decide
+/-- the leader (0) loses the leadership between looking and calling Raft: its call fails; with a retry the request is
+    forwarded to the new leader (2) and acknowledged; without one it is reported as failed and nothing happened -/
+example : consAddPeer 0 1 (planOrc 0 2 [.x]) [.boot [0, 1, 2]] 3 = (.ok, [.boot [0, 1, 2], .addVoter 3]) ∧
+    consAddPeer 0 0 (planOrc 0 2 [.x]) [.boot [0, 1, 2]] 3 = (.err, [.boot [0, 1, 2]]) := by decide
 /-- every forward refused: failed, nothing happened; three forwards for `commit_retries = 2` -/
-example : (consLoopT 1 2 (rwAddPeer 3) (planOrc 0 [.f, .f, .f, .f]) 3 0 [.boot [0, 1, 2]]).1 = (.err, [.boot [0, 1, 2]]) ∧
-    fwdCount (consLoopT 1 2 (rwAddPeer 3) (planOrc 0 [.f, .f, .f, .f]) 3 0 [.boot [0, 1, 2]]).2 = 3 := by decide
+example : (consLoopT 1 2 (rwAddPeer 3) (planOrc 1 0 [.f, .f, .f, .f]) 3 0 [.boot [0, 1, 2]]).1 = (.err, [.boot [0, 1, 2]]) ∧
+    fwdCount (consLoopT 1 2 (rwAddPeer 3) (planOrc 1 0 [.f, .f, .f, .f]) 3 0 [.boot [0, 1, 2]]).2 = 3 := by decide
 
 /-! ## concurrent issue: the single log linearises membership changes and pins -/
 
@@ -643,5 +647,36 @@ def concCase (pins : PinMap) : CCase :=
 example : cAllowed (concCase [(pinCid 1).stored, (pinCid 2).stored]) = true ∧
     cHolds (concCase [(pinCid 1).stored, (pinCid 2).stored]) = true ∧
     cHolds (concCase [(pinCid 2).stored]) = false ∧ cAllowed (concCase [(pinCid 2).stored]) = false := by decide
+
+/-! ## a joiner during a burst of pins (suite `join`) -/
+
+/-- A peer that `WaitForSync` lets through has applied every entry logged before its own addition — also when entries
+    keep arriving while it catches up: if no entry below index `a` gives it a vote, `a < applied` and its pinset is the
+    pinset at `a` extended by the entries it applied since. -/
+theorem joiner_holds_everything_before_addition (log : List Entry) (j h a : Nat)
+    (hr : syncReady log true { id := j, have_ := h, applied := h } = true)
+    (hfirst : ∀ k e, log[k]? = some e → e.enfranchises j = true → a ≤ k) :
+    a < h ∧ pinsAt (log.take h) = ((log.take h).drop a).foldl applyPin (pinsAt (log.take a)) :=
+  joiner_sync_lemma log j h a hr hfirst
+
+/-- the full statement for suite `join`: whatever position Raft gave to the joiner's addition among the pins of the burst
+    (after those acknowledged before `AddPeer` was issued) and whatever prefix the joiner had applied when `WaitForSync`
+    let it through, it held every pin acknowledged before the join was issued, and after the burst everybody reports
+    one peerset and one pinset. Hypotheses: the joiner is a new peer, the pins have distinct cids. -/
+theorem join_allowed_holds (k : JCase) (hw : WfJ k) (ha : jAllowed k = true) : jHolds k = true :=
+  join_allowed_holds' k hw ha
+
+/-- one member, two pins before, a burst of three of which one was acknowledged when the join was issued -/
+def joinCase (ready : PinMap) : JCase :=
+  { init := [0], joiner := 3, pre := [pinCid 0, pinCid 1], burst := [pinCid 2, pinCid 3, pinCid 4], acked := 1, addRes := .ok,
+    bits := (true, true, true), ready := ready,
+    obs := { members := [0, 3].map (fun i =>
+               ({ id := i, peers := [0, 3], pins := [pinCid 0, pinCid 1, pinCid 2, pinCid 3, pinCid 4].map Pin.stored, nonvoters := [] } : MemberObs)),
+             gone := [] } }
+
+example : jAllowed (joinCase ([pinCid 0, pinCid 1, pinCid 2, pinCid 3].map Pin.stored)) = true ∧
+    jHolds (joinCase ([pinCid 0, pinCid 1, pinCid 2, pinCid 3].map Pin.stored)) = true ∧
+    -- ready before its own addition was applied (WaitForSync without the voter wait): neither admitted nor accepted
+    jAllowed (joinCase ([pinCid 0].map Pin.stored)) = false ∧ jHolds (joinCase ([pinCid 0].map Pin.stored)) = false := by decide
 
 end CV.C17
